@@ -15,7 +15,9 @@ Three parts (see META for what is proved and what is only tested):
     every observed value and the trace of stores; a pass that raises on a verified module is an oracle failure.
  2. PIPELINE ORACLE (tested only).  Generated func/arith/scf programs (i32) -> the documented pipeline
     -> `riscv-asm` text -> executed by the assembly interpreter of c22_rv.py on random arguments -> compared with an
-    independent evaluation of the source; sp and s0-s11 must be restored.
+    independent evaluation of the source; sp and s0-s11 must be restored.  Family `pipeline-float`: f32/f64
+    arith.constant at boundary values (+-0, integral values around +-2^31, 2^32, 2^53, non-integral, denormal, +-inf,
+    quiet NaNs with payload) returned as is, summed, or added to a float argument; the bit pattern in fa0 is compared.
  3. PROLOGUE/EPILOGUE KERNEL (proved).  Model of PrologueEpilogueInsertion: the inserted op list of the real pass on
     generated pre-allocated riscv_func functions is compared with the model's; the emitted assembly is also run.
 
@@ -74,7 +76,8 @@ META = {
         "write a non-zero value to x0; soundness of the modelled greedy driver / dce as a whole (it is only tied to "
         "the real pass by the differential; each step is a proved pattern application; explicit fuel, OutOfFuel "
         "never observed); arith/func/scf lowerings, riscv_scf->riscv_cf, register allocation (C19) and parallel-move "
-        "lowering (C20) -- exercised only by the pipeline oracle; i1 function results and arith.select are rejected by "
+        "lowering (C20: its width handling on cycles with free registers is decided by ./check C20, not here) -- "
+        "exercised only by the pipeline oracle; i1 function results and arith.select are rejected by "
         "the pipeline itself (counted as skipped); memref/snitch lowerings not at all."),
 }
 COQ_TARGETS = ["C22/Enc.vo", "C22/ProofsArith.vo", "C22/Proofs.vo", "C22/ProofsPat.vo", "C22/ProofsMore.vo",
@@ -685,6 +688,13 @@ def pipe_known(prog, res):
     return None
 
 
+def float_known(case, res):
+    # f64 -0.0 is an "integral" constant for the li + fcvt.d.w path, which yields +0.0
+    if res[0] == "fail" and case["ty"] == "f64" and 0x8000000000000000 in case["consts"]:
+        return "C22-kf-8"
+    return None
+
+
 def run_pipeline(ctx: Ctx):
     from harness.props import c22_pipe
     import time
@@ -700,6 +710,9 @@ def run_pipeline(ctx: Ctx):
             ok, why = arith_holds(e["witness"], r)
         elif fam == "pipeline":
             r = pipe_impl(e["witness"])
+            ok, why = (r[0] in ("ok", "skip")), (r[1] if len(r) > 1 else "")
+        elif fam == "pipeline-float":
+            r = c22_pipe.run_float_case(e["witness"])
             ok, why = (r[0] in ("ok", "skip")), (r[1] if len(r) > 1 else "")
         else:
             continue
@@ -768,6 +781,36 @@ def run_pipeline(ctx: Ctx):
         c, r, why = fails[0]
         ctx.violation({"family": "pipeline", "case": c, "mlir": c22_pipe.to_mlir(c), "impl_result": r, "oracle": why,
                        "other_failing_cases": len(fails) - 1})
+    # float constants through the same pipeline: every boundary value returned as is (exhaustive over the two
+    # tables) + random constants, sums of two constants, constant + float argument; oracle = bit pattern in fa0
+    t = time.time()
+    fcases = [{"ty": "f64", "consts": [b], "arg": None} for b in c22_pipe.F64_BOUNDARY]
+    fcases += [{"ty": "f32", "consts": [b], "arg": None} for b in c22_pipe.F32_BOUNDARY]
+    fcases += [c22_pipe.gen_float_case(rng) for _ in range(1500 if thorough else 110)]
+    stats = {"ok": 0, "skip": 0, "fail": 0, "raise": 0}
+    fails, hits = [], {}
+    for c in fcases:
+        r = c22_pipe.run_float_case(c)
+        stats[r[0]] += 1
+        ctx.evaluations += 1
+        if r[0] == "ok":
+            ctx.nontrivial.add(("pipeline-float", c["ty"], tuple(c["consts"]), c["arg"] is not None))
+        elif r[0] in ("fail", "raise"):
+            kid = float_known(c, r)
+            if kid and kid in active:
+                hits[kid] = hits.get(kid, 0) + 1
+            else:
+                fails.append((c, r, r[1] if r[0] == "fail" else r[3]))
+    ctx.sample({"family": "pipeline-float", "case": fcases[10], "impl": c22_pipe.run_float_case(fcases[10])})
+    ctx.coverage["families"]["pipeline-float"] = {
+        "cases": len(fcases), "executed_and_equal": stats["ok"], "skipped": stats["skip"],
+        "oracle_failures": len(fails), "known_finding_hits": hits, "exhaustive": False,
+        "model": "none (oracle only)", "wall_s": round(time.time() - t, 2)}
+    if fails:
+        fails.sort(key=lambda x: len(json.dumps(x[0])))
+        c, r, why = fails[0]
+        ctx.violation({"family": "pipeline-float", "case": c, "impl_result": r, "oracle": why,
+                       "other_failing_cases": len(fails) - 1})
 
 
 # ---------------------------------------------------------------------------------------------------- run
@@ -834,6 +877,7 @@ def run(ctx: Ctx):
     ctx.coverage["proved_vs_tested"] = {
         "proved": ["canonicalization kernel (families single-pattern, canonicalize)",
                    "prologue/epilogue kernel (family prologue-epilogue)"],
-        "oracle_only": ["arith-lowering (convert-arith-to-riscv op table)", "pipeline (func/arith/scf -> riscv-asm)"],
+        "oracle_only": ["arith-lowering (convert-arith-to-riscv op table)", "pipeline (func/arith/scf -> riscv-asm)",
+                        "pipeline-float (f32/f64 arith.constant / addf -> riscv-asm, bit patterns)"],
         "not_covered": ["FuseMultiplyAddD (float fmadd fusion)", "riscv_snitch", "memref lowerings", "rv64",
                         "register allocation (C19)", "parallel-move lowering (C20)"]}
